@@ -11,7 +11,7 @@ import (
 )
 
 func (fg *FG) valName(v ssa.Value) string {
-	return "v." + sanitize(v.Name())
+	return "v." + fg.namePrefix + sanitize(v.Name())
 }
 
 // val returns the translated value of an SSA value.
